@@ -131,6 +131,12 @@ Theorem drop_never_delivered : forall (P : Type) (ticks : list (N * list (P * ve
   forall o, In o (snd (srun sched0 ticks)) -> ~ In p (o_all o).
 Proof. exact outs_drop_never. Qed.
 
+(* nothing is handed to the fabric twice: over a whole run, with distinct
+   packets, the concatenation of everything every tick delivers has no repeats *)
+Theorem delivered_at_most_once : forall (P : Type) (ticks : list (N * list (P * verdict))),
+  NoDup (all_pkts P ticks) -> NoDup (flat_map o_all (snd (srun sched0 ticks))).
+Proof. exact delivered_once_lemma. Qed.
+
 (* Pass and Deliver(0) packets leave in the very tick that drained them, in
    egress order, after the due packets; tick k runs at the sum of the first k dt *)
 Theorem zero_delay_immediate : forall (P : Type) (ticks : list (N * list (P * verdict))),
@@ -202,6 +208,7 @@ Print Assumptions deliver_within_tick.
 Print Assumptions deliver_when_due.
 Print Assumptions equal_deadline_fifo.
 Print Assumptions drop_never_delivered.
+Print Assumptions delivered_at_most_once.
 Print Assumptions zero_delay_immediate.
 Print Assumptions loopback_not_in_out.
 Print Assumptions rules_see_only_egress.
